@@ -221,7 +221,10 @@ func runSched(a *args) {
 			}
 		}
 		col.count("hook events checked for ownership", int64(len(c.events)))
-		if tw != nil && (int64(nsched)+a.Seed)%8 == 0 {
+		if len(c.events) == 0 {
+			col.count("schedules without hook events (call sites absent?): hook-level checks skipped", 1)
+		}
+		if tw != nil && len(c.events) > 0 && (int64(nsched)+a.Seed)%8 == 0 {
 			emit(map[string]interface{}{"ev": "reset"})
 			for _, e := range c.events {
 				id, ok := bufIdx[e.Buf]
